@@ -753,6 +753,16 @@ int __wrap_poll(struct pollfd *fds, nfds_t nfds, int timeout)
   int k = next_k(F_poll);
   trec *t = rec(F_poll, k, (long) nfds, timeout, 0);
   int e = fault_for(F_poll, k, t);
+  // 40000 + d: a signal interrupts this call d virtual ms after it started blocking (unless
+  // something it polls for happens first) - the interruption then falls *inside* the wait
+  int64_t intr = INT64_MAX;
+  if (e >= 40000 && w_vclock) {
+    intr = w_vnow + (e - 40000);
+    t->err = EINTR;
+    e = 0;
+  } else if (e >= 40000) {
+    e = EINTR;
+  }
   if (e) {
     t->ret = -1;
     errno = e;
@@ -772,14 +782,20 @@ int __wrap_poll(struct pollfd *fds, nfds_t nfds, int timeout)
     if (r != 0 || timeout == 0) break;
     if (prog) continue;
     int64_t end = timeout < 0 ? INT64_MAX : start + timeout;
+    int64_t stopat = end < intr ? end : intr;
     int64_t nx = w_sched_next ? w_sched_next() : INT64_MAX;
-    if (nx == INT64_MAX && end == INT64_MAX) hang("poll");
+    if (nx == INT64_MAX && stopat == INT64_MAX) hang("poll");
     t->flags |= TF_WAITED;
-    if (nx <= end) {
+    if (nx <= stopat) {
       if (nx > w_vnow) w_vnow = nx;
       continue;
     }
-    w_vnow = end;
+    w_vnow = stopat;
+    if (intr < end) {
+      errno = EINTR;
+      fin(t, -1);
+      return -1;
+    }
     r = 0;
     break;
   }
